@@ -23,6 +23,15 @@ public:
     u16 GetAcknowledge() {
         return 0;
     }
+    void Reset() {
+        std::lock_guard lock(mutex);
+        request = {};
+        enabled = {};
+        vectored_enabled = {};
+        vector_low = {};
+        vector_high = {};
+        vector_context_switch = {};
+    }
     void Trigger(u16 irq_bits) {
         std::lock_guard lock(mutex);
         IrqBits bits(irq_bits);
